@@ -771,6 +771,82 @@ func runC06CLI(c *core.Ctx) {
 	n := c.Scale(1500, 40000)
 	names := append(eco.Names(), "vers", "nosuch", "", "-h", "--help")
 	cmds := []string{"compare", "sort", "contains", "nosuch", "", "--", "-1"}
+	// command words discovered in the CLI's own sources (string literals of <repo>/cmd): every lower-case word is tried
+	// as the sub-command with every argument shape a sub-command can have (no / one / several versions, a range followed
+	// by one or several versions that are inside it, outside it, or a mix), all arguments well-formed. A sub-command
+	// added tomorrow is exercised the day it is added.
+	var words []string
+	for _, wd := range gen.PkgWords("cmd") {
+		if len(wd) >= 2 && len(wd) <= 14 && strings.ToLower(wd) == wd && eco.ByName(wd) == nil {
+			words = append(words, wd)
+		}
+	}
+	sortStrings(words)
+	cmds = append(cmds, words...)
+	wecos := eco.Names()
+	type wjob struct{ word, eco string }
+	var wjobs []wjob
+	for _, wd := range words {
+		for k := 0; k < c.Scale(5, len(wecos)); k++ {
+			wjobs = append(wjobs, wjob{wd, wecos[(k*7+len(wd)+int(wd[0]))%len(wecos)]})
+		}
+	}
+	c.Note("cli_command_words_from_source", len(words))
+	c.Parallel(len(wjobs), func(w *core.W, i int) {
+		j := wjobs[i]
+		e := eco.ByName(j.eco)
+		r := c.Rand("c06cliword", j.word, j.eco)
+		okVer := func() string {
+			for t := 0; t < 30; t++ {
+				s := gen.One(j.eco, r)
+				if v, err, pn := e.SafeNewVersion(s); pn == nil && err == nil && v != nil && !strings.HasPrefix(s, "-") && !strings.Contains(s, "\x00") {
+					return s
+				}
+			}
+			return "1.0.0"
+		}
+		okRange := func() string {
+			for t := 0; t < 30; t++ {
+				s := gen.RangeOne(j.eco, r)
+				if g, err, pn := e.SafeNewRange(s); pn == nil && err == nil && g != nil && !strings.HasPrefix(s, "-") && !strings.Contains(s, "\x00") {
+					return s
+				}
+			}
+			return ">=1.0.0"
+		}
+		for rep := 0; rep < 3; rep++ {
+			vs := []string{okVer(), okVer(), okVer(), okVer()}
+			rg := okRange()
+			// versions inside and outside the range
+			var in, out []string
+			if g, err, pn := e.SafeNewRange(rg); pn == nil && err == nil && g != nil {
+				for t := 0; t < 40 && (len(in) < 2 || len(out) < 3); t++ {
+					s := okVer()
+					v, _, _ := e.SafeNewVersion(s)
+					if v == nil {
+						continue
+					}
+					if got, pn := eco.SafeContains(g, v); pn == nil && got {
+						in = append(in, s)
+					} else if pn == nil {
+						out = append(out, s)
+					}
+				}
+			}
+			shapes := [][]string{{}, {vs[0]}, {vs[0], vs[1]}, vs[:3], vs, {rg}, {rg, vs[0]}, append([]string{rg}, vs...),
+				append([]string{rg}, out...), append([]string{rg}, in...), append(append([]string{rg}, out...), in...), {vs[0], rg}}
+			for _, sh := range shapes {
+				argv := append([]string{j.eco, j.word}, sh...)
+				w.Count("evaluations", 1)
+				w.Count("cli_runs", 1)
+				w.Count("cli_word_runs", 1)
+				w.NT(core.Hash64("cliword", j.word, j.eco, itoa(len(sh))))
+				for _, v := range cliStructural(bin, argv) {
+					w.Report(v)
+				}
+			}
+		}
+	})
 	const chunk = 50
 	c.Parallel(n/chunk, func(w *core.W, i int) {
 		r := c.Rand("c06cli", itoa(i))
